@@ -5,7 +5,6 @@ import (
 	"go/constant"
 	"go/token"
 	"go/types"
-	"sort"
 	"strings"
 
 	"golang.org/x/tools/go/ssa"
@@ -386,6 +385,8 @@ var dstNonNilAtCallSite func(c *Check, p *Program, rule string) bool
 type decHooks struct {
 	cursorCands []ssa.Value
 	srcLenVals  map[ssa.Value]bool
+	offsetVals  []ssa.Value // results of 16-bit little-endian loads (match offsets)
+	lenCands    []ssa.Value // unsigned word-sized sums and phis (accumulated lengths)
 }
 
 // bndArch: the bounds prover's Go front end runs on the default pass (64-bit
@@ -580,8 +581,42 @@ func portableDecoderRulesImpl(c *Check, prefix string) {
 			}
 			if v.isConst() {
 				g.coll.check("result", g.siteKey(r, "const-result"), g.prog.InstrPos(r), "constant results are negative error codes", v.k.Sign() < 0, func() string { return "constant result " + v.k.String() })
+				// explicit error exit: the state that reaches it entails one of the format violations
+				// the assembly decoders also reject: empty input, accumulated length beyond the
+				// positive int range, read cursor at or beyond the end of the source, zero offset
+				why := ""
+				Ls := g.lenSym["src"]
+				half := qPow2(goWordBits - 1)
+				switch {
+				case a.st.entailsEq(Ls, linI(0)):
+					why = "empty input"
+				default:
+					for _, cand := range h.cursorCands {
+						if cv, has := a.vals[vkey(cand)]; has && a.st.entailsLeq(Ls, cv) {
+							why = "read cursor at or beyond the end of the source"
+						}
+					}
+					if why == "" {
+						for _, ov := range h.offsetVals {
+							if x, has := a.vals[vkey(ov)]; has && a.st.entailsEq(x, linI(0)) {
+								why = "zero offset"
+							}
+						}
+					}
+					if why == "" {
+						for _, lv := range h.lenCands {
+							if x, has := a.vals[vkey(lv)]; has && a.st.minGE(x, half) {
+								why = "length beyond the positive int range"
+							}
+						}
+					}
+				}
+				g.coll.check("errexit", g.siteKey(r, "error-exit"), g.prog.InstrPos(r), "an explicit error exit of the portable decoder is taken only on a format violation the assembly decoders reject as well (empty input, length overflow, truncated sequence, zero offset)", why != "", func() string {
+					return fmt.Sprintf("the state reaching this error return (from block %d) entails none of: len(src)=0, cursor>=len(src), offset=0, length>=2^%d: the portable decoder rejects a block on a condition of its own", a.from, goWordBits-1)
+				})
 				return
 			}
+			g.coll.check("nonempty", "decodeBlock#success-needs-input", g.prog.InstrPos(r), "a success result is only returned for a non-empty source (the assembly decoders reject an empty one)", a.st.minGE(g.lenSym["src"], qi(1)), func() string { return "len(src) may be 0 at the success return" })
 			L := g.lenSym["dst"]
 			g.coll.check("result", "decodeBlock#cursor-result", g.prog.InstrPos(r), "the success result lies in [0, len(dst)]", a.st.minGE(v, qi(0)) && a.st.entailsLeq(v, L), func() string {
 				_, mx := a.st.max(v.Sub(L))
@@ -602,6 +637,28 @@ func portableDecoderRulesImpl(c *Check, prefix string) {
 			g.coll.check("consumed", "decodeBlock#source-consumed", g.prog.InstrPos(r), "on success the read cursor is exactly at the end of the source", okC, func() string { return "no read cursor is entailed equal to len(src): " + strings.Join(tried, ", ") })
 		},
 	}
+	allInstrs(fn, func(in ssa.Instruction) {
+		v, isV := in.(ssa.Value)
+		if !isV {
+			return
+		}
+		if call, isC := in.(*ssa.Call); isC {
+			if n, okR := calleeRange(staticCallee(call)); okR && n == 16 {
+				h.offsetVals = append(h.offsetVals, v)
+			}
+			return
+		}
+		if n, u, isI := isIntType(v.Type()); isI && u && n >= goWordBits {
+			switch x := in.(type) {
+			case *ssa.Phi, *ssa.Extract:
+				h.lenCands = append(h.lenCands, v)
+			case *ssa.BinOp:
+				if x.Op == token.ADD {
+					h.lenCands = append(h.lenCands, v)
+				}
+			}
+		}
+	})
 	// cursor candidates: phis compared with uint(len(src))
 	allInstrs(fn, func(in ssa.Instruction) {
 		b, ok := in.(*ssa.BinOp)
@@ -667,12 +724,10 @@ func portableDecoderRulesImpl(c *Check, prefix string) {
 	case prefix == "R03":
 		emitObls(c, coll, "go|", map[string]string{"result": "R03.6", "write": "R03.6"})
 	case prefix == "R04":
-		emitObls(c, coll, "go|", map[string]string{"offset": "R04.1", "consumed": "R04.2", "overlap": "R04.7"})
+		emitObls(c, coll, "go|", map[string]string{"offset": "R04.1", "consumed": "R04.2", "nonempty": "R04.2", "overlap": "R04.7", "errexit": "R04.6"})
 		c.RuleDoc["R04.7"] = "portable decoder: same-buffer copies whose count is not the cursor advance do not overlap their source"
-		ruleDecoderErrorExits(c, p, fn, "R04.6")
 	default:
-		emitObls(c, coll, "go|", map[string]string{"result": prefix, "offset": prefix, "consumed": prefix, "overlap": prefix})
-		ruleDecoderErrorExits(c, p, fn, prefix)
+		emitObls(c, coll, "go|", map[string]string{"result": prefix, "offset": prefix, "consumed": prefix, "nonempty": prefix, "overlap": prefix, "errexit": prefix})
 	}
 }
 
@@ -688,117 +743,6 @@ func isLenOf(v ssa.Value, of ssa.Value) bool {
 // ruleDecoderErrorExits: the explicit error returns of the portable decoder are
 // exactly the format violations (guard table). An added or altered exit rejects
 // blocks the assembly decoders accept.
-func ruleDecoderErrorExits(c *Check, p *Program, fn *ssa.Function, rule string) {
-	canon := func(v ssa.Value) string {
-		var rec func(v ssa.Value, d int) string
-		rec = func(v ssa.Value, d int) string {
-			if d > 6 {
-				return "…"
-			}
-			switch x := v.(type) {
-			case *ssa.Const:
-				return shortVal(x)
-			case *ssa.Convert:
-				_, tu, _ := isIntType(x.Type())
-				_, su, _ := isIntType(x.X.Type())
-				if !tu && su {
-					// int(<accumulated length>): name the loop-carried variable
-					name := ""
-					walkBack(x.X, true, func(y ssa.Value) bool {
-						if ph, isPhi := y.(*ssa.Phi); isPhi && ph.Comment != "" && name == "" {
-							name = ph.Comment
-						}
-						return name == ""
-					})
-					if name != "" {
-						return "int(" + name + ")"
-					}
-					return "int(" + rec(x.X, d+1) + ")"
-				}
-				return rec(x.X, d+1)
-			case *ssa.Call:
-				if b, ok := x.Call.Value.(*ssa.Builtin); ok && len(x.Call.Args) > 0 {
-					root := x.Call.Args[0]
-					for {
-						if sl, isS := root.(*ssa.Slice); isS {
-							root = sl.X
-							continue
-						}
-						break
-					}
-					return b.Name() + "(" + shortVal(root) + ")"
-				}
-				if n, ok := calleeRange(staticCallee(x)); ok && n == 16 {
-					return "offset"
-				}
-				return "call"
-			case *ssa.Phi:
-				if x.Comment != "" {
-					return x.Comment
-				}
-				return "phi"
-			case *ssa.BinOp:
-				return "(" + rec(x.X, d+1) + x.Op.String() + rec(x.Y, d+1) + ")"
-			}
-			return shortVal(v)
-		}
-		return rec(v, 0)
-	}
-	allowed := map[string]bool{
-		"len(src)==0":     true, // empty input
-		"int(lLen)<0":     true, // literal length overflow
-		"int(mLen)<0":     true, // match length overflow
-		"si>=len(src)":    true, // truncated sequence
-		"offset==0":       true, // zero offset
-	}
-	seen := map[string]int{}
-	allInstrs(fn, func(in ssa.Instruction) {
-		r, ok := in.(*ssa.Return)
-		if !ok {
-			return
-		}
-		// explicit error return: the block stores a negative constant into the result cell
-		neg := false
-		for _, j := range in.Block().Instrs {
-			if st, isSt := j.(*ssa.Store); isSt {
-				if _, isAl := st.Addr.(*ssa.Alloc); isAl {
-					if k, isK := st.Val.(*ssa.Const); isK && k.Value != nil && k.Value.Kind() == constant.Int && k.Int64() < 0 {
-						neg = true
-					}
-				}
-			}
-		}
-		if !neg || len(in.Block().Preds) != 1 {
-			return
-		}
-		_ = r
-		pred := in.Block().Preds[0]
-		ifi, isIf := pred.Instrs[len(pred.Instrs)-1].(*ssa.If)
-		if !isIf {
-			return
-		}
-		b, isB := ifi.Cond.(*ssa.BinOp)
-		if !isB {
-			c.Unknown(rule, "decodeBlock(portable)#error-exit", p.InstrPos(in), "error exits are format violations", "guard is not a comparison")
-			return
-		}
-		val := pred.Succs[0] == in.Block()
-		s := canon(b.X) + opStr(b.Op, val) + canon(b.Y)
-		seen[s]++
-		c.Sites++
-		c.Cond(allowed[s], rule, "decodeBlock(portable)#error-exit:"+s, p.InstrPos(in), "every explicit error exit of the portable decoder is one of the format violations {empty input, length overflow, truncated sequence, zero offset}; everything else is rejected by bounds checks shared with the assembly decoders", "guard "+s, "unexpected explicit error exit guarded by "+s+": the portable decoder rejects blocks on a condition the assembly decoders do not test")
-	})
-	var missing []string
-	for k := range allowed {
-		if seen[k] == 0 {
-			missing = append(missing, k)
-		}
-	}
-	sort.Strings(missing)
-	c.Cond(len(missing) == 0, rule, "decodeBlock(portable)#error-exits-complete", p.Pos(fn.Pos()), "all five format-violation exits are present", "all found", "missing explicit error exits: "+strings.Join(missing, ", "))
-}
-
-// dstNonNilAtCallSiteImpl (R03.3): the destination handed to decodeBlock is never nil.
 func dstNonNilAtCallSiteImpl(c *Check, p *Program, rule string) bool {
 	fn := p.Func("internal/lz4block", "UncompressBlock")
 	if fn == nil {
